@@ -128,6 +128,29 @@ def main(tier, seed):
         # of raw.csv and punycode.csv is checked below)
         if len(listed) != len(gen_rows):
             rep.violation("generator/test-list-and-table-differ-in-size", {"list": len(listed), "table": len(gen_rows)}, None)
+    # the repository's own way of re-running the generators: `make auto tld-domains` in a mirror that holds the shipped outputs (they are
+    # regenerated in place, as a maintainer does it)
+    work3 = os.path.join(cx.dir, "mirror-make")
+    for d in ("include/eav", "src", "data", "util"):
+        os.makedirs(os.path.join(work3, d), exist_ok=True)
+    for f in ("Makefile", "util/gentld.pl", "util/gen_utf8_pass_test.pl", "data/punycode.csv", "data/raw.csv", "data/tld-domains.txt",
+              "include/eav/auto_tld.h", "src/auto_tld.c"):
+        if os.path.exists(os.path.join(REPO, f)):
+            shutil.copy(os.path.join(REPO, f), os.path.join(work3, f))
+    menv = dict(os.environ, LC_ALL="C.UTF-8")
+    if not have_text_csv():
+        menv["PERL5LIB"] = os.path.join(core.VERIF, "shim", "perl")
+    mk = subprocess.run(["make", "auto", "tld-domains"], cwd=work3, stdout=subprocess.PIPE, stderr=subprocess.STDOUT, env=menv)
+    rep.counters["makefile.generator-targets-run"] = 1
+    if mk.returncode != 0:
+        rep.violation("generator-fails/make-auto-tld-domains", {"command": "make auto tld-domains"}, {"output": mk.stdout.decode("utf-8", "replace")[-800:]})
+    else:
+        for rel, mask in (("include/eav/auto_tld.h", None), ("src/auto_tld.c", ts), ("data/tld-domains.txt", None)):
+            d, n = diff_files(os.path.join(work3, rel), os.path.join(REPO, rel), mask)
+            lines_compared += n
+            for ln, x, y in d[:20]:
+                disagreements += 1
+                rep.violation("regenerated-by-make-differs/%s" % rel, {"file": rel, "line": ln}, {"generated": x, "shipped": y})
     # independent reading of the CSVs
     hdr, prow = read_csv(os.path.join(REPO, "data", "punycode.csv"))
     _, rrow = read_csv(os.path.join(REPO, "data", "raw.csv"))
